@@ -10,6 +10,7 @@ import Driver.Util
           src = s:<flag>:<hex token string> | n:<toks|absent|empty>
     chain <hex BUF_TOKEN> <toks|absent|empty> <hex host> -> cfgerr <tag> | panic | hdr <hex|none> <hasToken> <usingEnv>
     chaintok <hex token> <hex host>                    -> same outputs (NewConnectClientConfigWithToken)
+    hops  <hex first token|none> <hex registry host> <hop hosts> -> <hex|none>,<hex|none>,... (Authorization token per redirect hop)
 -/
 namespace Driver.C19
 open BufModel.Token Driver
@@ -87,6 +88,14 @@ def handle : List String → String
        | .error .panic => "panic"
        | .ok r => showAuth r)
     | _, _ => "bad-op"
+  | ["hops", first, orig, hosts] =>
+    let f : Option (Option Str) := if first = "none" then some none else (hexDecode first).map fun x => some (s2l x)
+    match f, hexDecode orig, decList hosts with
+    | some fst, some o, some hs =>
+      ",".intercalate ((hopHeaders fst (s2l o) hs false).map fun
+        | some t => enc (l2s t)
+        | none => "none")
+    | _, _, _ => "bad-op"
   | _ => "bad-op"
 
 def run : IO Unit := runLines handle
